@@ -166,10 +166,32 @@ def run_property(prop, tier="quick", replay=None):
         if not hit:
             print("no obligation with that key on the current tree")
         return 1 if any(not o.ok for o in hit) else 0
+    # A listed panic-site finding is identified by rule + kind of construct (callee / assertion kind); its
+    # enclosing function and operand rendering move when the surrounding code is refactored.  Listed
+    # findings that have no exact match on this tree ("vacant") absorb at most the same number of
+    # unlisted sites of the same class; any surplus site is a new violation.
+    def site_class(key):
+        m = re.match(r"^([A-Za-z0-9.]+)/site:(.*?) \| (.*?) \| ", key)
+        return (m.group(1), m.group(3)) if m else None
+    vacant = {}
+    for k in known:
+        if k not in viols and site_class(k):
+            vacant.setdefault(site_class(k), []).append(k)
+    moved = {}
+    for key in sorted(viols):
+        if key in known:
+            continue
+        c = site_class(key)
+        if c and vacant.get(c):
+            moved[key] = vacant[c].pop(0)
     for key, o in sorted(viols.items()):
         if key in known:
             n_known += 1
             print("KNOWN-FINDING: property=%s %s %s" % (prop, key, known[key].get("what", "")))
+            continue
+        if key in moved:
+            n_known += 1
+            print("KNOWN-FINDING: property=%s %s %s (same construct, now rendered as %s)" % (prop, moved[key], known[moved[key]].get("what", ""), key))
             continue
         n_unlisted += 1
         rp = os.path.join(outdir, safe_name(key) + ".json")
